@@ -8,7 +8,7 @@ from harness import frames_gen as G
 from harness import model, proto_impl as PI, vloop
 from harness.common import Prop
 
-FAULTS = ["eof", "oserror", "timeout", "write"]
+FAULTS = ["eof", "oserror", "timeout", "write", "stall", "eof-mid"]
 
 
 async def _run(n0, cycles):
@@ -82,6 +82,12 @@ async def _run(n0, cycles):
             writer.fail_on = writer.writes + 1
             proto._queues.write.put_nowait(UIDRequest(recipient=DeviceType.ECOMAX))
             reader.feed_data(G.enc(0x31, 0x45, 0x56, 0, 5, b""))
+        elif f in ("stall", "eof-mid"):
+            # the first `cut` bytes of a frame arrive, then the line goes silent (stall) or the stream ends (eof-mid)
+            fb = G.enc(kind, 0x56, 0x45, 48, 5, payload)
+            reader.feed_data(fb[:max(1, min(len(fb) - 1, c.get("cut", 8)))])
+            if f == "eof-mid":
+                reader.feed_eof()
         # "timeout": nothing arrives any more
         for _ in range(400):
             await asyncio.sleep(1)
@@ -146,7 +152,7 @@ class C11(Prop):
     prop_file = "Props/C11.v"
     rule = ("real Connection (scripted _open_connection) + AsyncProtocol + fake transports under the virtual-time loop: 0..2 failing initial "
             "opens, 1..4 loss/reconnect cycles, each with traffic (frames from the controller and/or an ecoSTER panel, creating 0..2 devices), "
-            "a fault at the k-th read or write (end of stream, OSError, silence until the 10 s read timeout, failing write) and 0..3 failing "
+            "a fault at the k-th read or write (end of stream, OSError, silence until the 10 s read timeout, failing write, silence or end of stream after the first 1..n-1 bytes of a frame) and 0..3 failing "
             "reconnect attempts, lost transports that take 0 / 3 / 12 s to finish closing, and 0..2 re-established transports whose very first write fails at once; observed per cycle: connected=False/True events per device, transport close calls, open attempts with their "
             "virtual-time gaps, start-master frames on the new transport, live producer/consumer tasks.  Non-trivial = a device is known when "
             "the connection is lost; distinct by case content.")
@@ -161,7 +167,8 @@ class C11(Prop):
                 traffic = rng.choice([[], [0x45], [0x45, 0x45], [0x51], [0x45, 0x51]]) if i == 0 or rng.random() < 0.4 else rng.choice([[], [0x45]])
                 cycles.append({"traffic": traffic, "fault": rng.choice(FAULTS), "after": rng.randrange(0, 4), "fails": rng.randrange(0, 4),
                                "busy": i == 0 and rng.random() < 0.4,
-                               "instant": rng.choice([0, 0, 0, 1, 2]), "slow_close": rng.choice([0, 0, 0, 3, 12])})
+                               "instant": rng.choice([0, 0, 0, 1, 2]), "slow_close": rng.choice([0, 0, 0, 3, 12]),
+                               "cut": rng.choice([1, 3, 6, 7, 8, 9, 10, rng.randrange(1, 400), 10 ** 6])})
             cases.append({"kind": "random", "n0": rng.randrange(0, 3), "cycles": cycles})
         return cases
 
